@@ -330,6 +330,30 @@ def is_loop_output_not_reemitted(prog, res: R.RunResult) -> bool:
     return False
 
 
+def is_scatter_join_mispaired(prog, res: R.RunResult) -> bool:
+    """A multi-input job inside a scatter (diamond join) whose input ports deliver their tokens in
+    different tag orders after a recovery delayed one element: ExecuteStep._check_inputs pairs 'the
+    job just fetched from the job port' with 'whatever tag is complete', so one job of the step is
+    consumed and never run while another job runs twice (same output directory) although it never
+    failed; the executor returns normally with a wrong list."""
+    if res.status != "ok" or not res.recover_calls:
+        return False
+    by_step: dict = {}
+    for j in R.jobs_of(prog):
+        if len(j["deps"]) >= 2:
+            by_step.setdefault(j["step"], []).append(j["job"])
+    for step, js in by_step.items():
+        if len(js) < 2:
+            continue
+        ok = {j: sum(1 for e in res.execs.get(j, ()) if e["outcome"] == "ok") for j in js}
+        failed = {j: sum(1 for e in res.execs.get(j, ()) if e["outcome"] != "ok") for j in js}
+        never = [j for j in js if ok[j] == 0 and failed[j] == 0]
+        twice = [j for j in js if ok[j] >= 2 and failed[j] == 0]
+        if never and twice:
+            return True
+    return False
+
+
 def is_concurrent_recovery_drops_job(prog, res: R.RunResult) -> bool:
     """After a fail-stop deleted files other jobs had written, two or more recover() calls were
     open at the same time (sibling jobs, the two transfer steps of one job, or a job failing again
@@ -369,28 +393,32 @@ def is_zero_iter_unrecoverable(prog, res: R.RunResult) -> bool:
 
 
 def is_runaway_nested_recovery(res: R.RunResult, limit) -> bool:
-    """recover() of one job re-entered >= 5 times in a row with nothing executed in between, after a
-    fail-stop loss while other recoveries were active, until the retry limit aborted the workflow."""
-    if res.status != "raised" or not limit:
+    """After a fail-stop loss with >= 2 jobs in recovery, recover() of one job is re-entered >= 5
+    times with nothing executed, injected or deleted in between (each nested recovery workflow fails
+    at once: its input is never regenerated, or the two transfer steps of one job keep handing the
+    job to each other), until the retry limit aborts the workflow ('FAILED Job .. N times. Execution
+    aborted') or Python's recursion limit is hit (RecursionError), although the job was injected to
+    fail at most 3 times."""
+    if res.status != "raised":
         return False
     if not any(l["producers"] for l in res.losses):
         return False
     if len(res.recover_calls) < 2:
         return False
-    streak, last = 0, None
+    streak: dict = {}
+    runaway = set()
     for e in res.events:
         if e["ev"] == "recover_start":
-            streak = streak + 1 if e["job"] == last else 1
-            last = e["job"]
-            if streak >= 5:
-                aborted = any(
-                    c["outcome"] == "FailureHandlingException" and "Execution aborted" in (c.get("msg") or "")
-                    for c in res.recover_calls.get(last, ())
-                )
-                if aborted:
-                    return True
+            streak[e["job"]] = streak.get(e["job"], 0) + 1
+            if streak[e["job"]] >= 5:
+                runaway.add(e["job"])
         elif e["ev"] in ("exec_start", "fault", "loss"):
-            streak, last = 0, None
+            streak = {}
+    for j in runaway:
+        for c in res.recover_calls.get(j, ()):
+            if c["outcome"] == "RecursionError" or (
+                    c["outcome"] == "FailureHandlingException" and "Execution aborted" in (c.get("msg") or "")):
+                return True
     return False
 
 
